@@ -221,6 +221,7 @@ func (s *Server) aofshrink() {
 		if err := f.Sync(); err != nil {
 			return err
 		}
+		verifPoint(s, "shrink.copied")
 
 		// finally grab any new data that may have been written since
 		// the aofshrink has started and swap out the files.
@@ -263,6 +264,7 @@ func (s *Server) aofshrink() {
 			if err := f.Sync(); err != nil {
 				return err
 			}
+			verifPoint(s, "shrink.swap.synced")
 			// we now have a shrunken aof file that is fully in-sync with
 			// the current dataset. let's swap out the on disk files and
 			// point to the new file.
@@ -275,12 +277,15 @@ func (s *Server) aofshrink() {
 			if err := f.Close(); err != nil {
 				log.Fatalf("shrink new aof close fatal operation: %v", err)
 			}
+			verifPoint(s, "shrink.swap.closed")
 			if err := os.Rename(s.opts.AppendFileName, s.opts.AppendFileName+"-bak"); err != nil {
 				log.Fatalf("shrink backup fatal operation: %v", err)
 			}
+			verifPoint(s, "shrink.swap.renamed1")
 			if err := os.Rename(s.opts.AppendFileName+"-shrink", s.opts.AppendFileName); err != nil {
 				log.Fatalf("shrink rename fatal operation: %v", err)
 			}
+			verifPoint(s, "shrink.swap.renamed2")
 			s.aof, err = os.OpenFile(s.opts.AppendFileName, os.O_CREATE|os.O_RDWR, 0600)
 			if err != nil {
 				log.Fatalf("shrink openfile fatal operation: %v", err)
@@ -291,6 +296,7 @@ func (s *Server) aofshrink() {
 				log.Fatalf("shrink seek end fatal operation: %v", err)
 			}
 			s.aofsz = int(n)
+			verifPoint(s, "shrink.swap.reopened")
 
 			os.Remove(s.opts.AppendFileName + "-bak") // ignore error
 
